@@ -3,7 +3,7 @@
 Two real indexers are driven through the same scenario generator, chain model and oracles:
 ckb-indexer (RocksDB; parts main_domain / known_deviation_domains) and ckb-rich-indexer (SQLite;
 parts rich / rich_known_deviation_domains, violation classes prefixed "rich:")."""
-import os, re, time, json, subprocess
+import os, time, json, subprocess
 from vlib import *
 from batchcheck import *
 
@@ -21,7 +21,7 @@ ASSUMPTIONS = [
     "rich-indexer parts: the real ckb_rich_indexer AsyncRichIndexer::{append, rollback} (the bodies that IndexerSync::{append, rollback} of RichIndexer run with block_on) and AsyncRichIndexerHandle over SQLite (85 % of the runs SQLite's in-memory database with the one-connection pool SQLXPool::connect builds for it, 15 % a database file on tmpfs with the ten-connection pool), every future run to completion by Runtime::block_on of a current-thread tokio runtime owned by the run; the synchronous wrappers RichIndexer / RichIndexerHandle (block_on forwarding through ckb_async_runtime::Handle), RichIndexerService, PostgreSQL, the tx-pool overlay, custom filters and init_tip are not exercised. The sqlx pool's wall-clock timers (acquire 60 s, idle reaper 30 s, lifetime 1800 s) exist but cannot elapse inside a run of a few hundred milliseconds; no path that completes awaits them. One run per worker-thread-owned child process at a time (SQLite's process-global mutexes serialise threads), results absorbed in seed order",
     "rich-indexer oracle 1 uses the semantics documented for RPC module Rich_indexer: script_search_mode partial = same code_hash and hash_type, searched args occur inside the args; get_transactions accepts all seven filter conditions, applied to the cell a row is about (block_range: the block of the row's transaction); get_transactions filter.script is documented without 'prefix' or 'exact' and is taken as prefix like get_cells; order = position on the chain (cells: block, tx_index, output index; transactions: block, tx_index). One-sided: the order of the rows of ONE transaction in an ungrouped answer and of the cells inside one group is undocumented and compared as a set; get_cells_capacity answering null instead of capacity 0 when no live cell matches is accepted (the documentation allows null without saying when; probe capacity_null_for_empty_set); paging follows the documented client rule (a page shorter than limit is the last page)",
     "rich-indexer oracle 2 compares, between 'block B was appended and is the tip' and 'the indexer rolled back to B', the answers to the fixed query set and EVERY row of all nine tables (block, block_association_proposal, block_association_uncle, ckb_transaction, tx_association_header_dep, tx_association_cell_dep, output incl. is_spent, input, script) including the row ids. The rich-indexer never prunes, so every rollback depth is inside its retention; keep_num only bounds the reorg depth the generator asks for (1..12). Blocks of rich scenarios carry 0-2 uncles and 0-2 proposals, transactions 0-2 cell deps and header deps",
-    "rich-indexer: two input domains in which the unmodified code deviates (sim/simidx/RICH_FINDINGS.md) are explored by the separate part rich_known_deviation_domains and avoided by part rich: (1) a non-empty all-0xff byte string searched as a prefix (script args, filter.script args, filter.output_data) while indexed args/data extend it: the generator of part rich gives no script args starting with 0xff and no data extending 'ff'; (2) ungrouped get_transactions paged so that a page lies entirely inside one transaction some of whose rows were on the previous page: part rich detects the condition on the model's expected answer and asks that query with limit 10000 instead (probe txs_cursor_domain_avoided_by_raising_limit). Until a decision (fix or known_findings.json entry) violations of exactly these two class families in that part are printed as PENDING-FINDING and do not fail the check (VERIF_C18_RICH_PENDING_STRICT=1 makes them fail); any other class fails it",
+    "rich-indexer: one input domain in which the unmodified code deviates (known finding rich:prefix_all_ff_misses_extensions:*, sim/simidx/RICH_FINDINGS.md F2) is explored by the separate part rich_known_deviation_domains and avoided by part rich: a non-empty all-0xff byte string searched as a prefix (script args, filter.script args, filter.output_data) while indexed args/data extend it; the generator of part rich gives no script args starting with 0xff (the args family ff ff 01 is replaced by fe ff 01) and no data extending 'ff'. The repeating cursor of ungrouped get_transactions (F1) was repaired by 8a6319f and is an ordinary input of part rich",
     "three input domains in which the unmodified code deviates are explored by a separate part ('known_deviation_domains') so they cannot mask anything in the main part: searched args that extend an indexed script's args with zero bytes; get_cells_capacity with filter.script_len_range; rolling back block 0",
     "capacities stay below 2^39 per cell so that the u64 sum in get_cells_capacity cannot overflow (the simulator builds the indexer with overflow checks on)",
     "RocksDB (real, default options, in a per-run directory on tmpfs) and molecule/ckb-types are trusted",
@@ -45,28 +45,7 @@ STUB = [
     "rich-indexer: RichIndexerService / IndexerSyncService / SecondaryDB, the synchronous RichIndexer and RichIndexerHandle wrappers, PostgreSQL",
 ]
 
-# violation classes of the rich-indexer's two deviation domains that await a decision (fix: commit or
-# known_findings.json entry); see sim/simidx/RICH_FINDINGS.md. Only honoured in part rich_known_deviation_domains.
-RICH_PENDING = [
-    r"rich:txs_cursor_repeats_within_tx",
-    r"rich:prefix_all_ff_misses_extensions:(get_cells|get_transactions|get_cells_capacity)",
-]
 RICH_DEV_PART = "rich_known_deviation_domains"
-
-
-def split_pending(doc, pending_counts):
-    """take the awaiting-decision classes out of the sub-part's violations unless known_findings.json already decides them"""
-    if os.environ.get("VERIF_C18_RICH_PENDING_STRICT") == "1":
-        return
-    keep = []
-    for v in doc["violations"]:
-        c = v["violation"]["class"]
-        if match_known(PROP, c) is None and any(re.fullmatch(p, c) for p in RICH_PENDING):
-            e = pending_counts.setdefault(c, {"runs": 0, "first_seed": v["seed"], "detail": v["violation"]["detail"][:600]})
-            e["runs"] += 1
-        else:
-            keep.append(v)
-    doc["violations"] = keep
 
 
 def gen(seed, extra=()):
@@ -115,15 +94,12 @@ def run(tier, args):
         a, b = args.seeds.split("..")
         parts = [(n, x, int(b) - int(a), s) for (n, x, _, s) in parts]
     agg = Agg()
-    pending = {}
     part_counters = {}
     for name, extra, n, stream in parts:
         lo = seed_lo(stream) if not args.seeds else int(args.seeds.split("..")[0])
         t1 = time.time()
         doc, rc = run_json([BIN, "batch", "--seeds", f"{lo}..{lo+n}", "--threads", "16", *extra], timeout=7200)
         log(f"[{PROP}] {name}: {doc['runs']} runs, {doc['nontrivial_runs']} non-trivial, {len(doc['violations'])} failing, {time.time()-t1:.1f}s")
-        if name == RICH_DEV_PART:
-            split_pending(doc, pending)
         if "--rich" in extra:
             part_counters[name] = {
                 "runs": doc["runs"],
@@ -139,8 +115,6 @@ def run(tier, args):
     if agg.harness_errors:
         log("harness errors:", agg.harness_errors[:5])
         return 2
-    for c, e in sorted(pending.items()):
-        print(f"PENDING-FINDING: property={PROP} class={c} {e['runs']} run(s) in part {RICH_DEV_PART}, first seed {e['first_seed']}: awaiting decision (fix: commit or known_findings.json entry), analysis and minimal history in sim/simidx/RICH_FINDINGS.md", flush=True)
     unknown = triage(PROP, agg, BIN, shrink_keys=("ops", "probe_queries"), max_report=6)
     wall = time.time() - t0
     coverage = {
@@ -151,7 +125,6 @@ def run(tier, args):
         "parts": agg.parts,
         "known_deviation_domains_part_skipped": skip_dev,
         "rich_parts": part_counters,
-        "rich_pending_findings": pending,
         "exhaustive": False,
         "fault_kinds_fired": agg.faults,
         "probes_hit": agg.probes,
